@@ -462,18 +462,28 @@ func c43LookupDepth(c *Ctx, lookup string, nonNil Sel, retTerm func(ssa.Instruct
 					c.Fail(rule, construct, InstrPos(in), "descendant return reachable without a prefix test")
 					return
 				}
-				a := CondAtom(ifi.Cond)
-				if p.Succs[1] == in.Block() {
-					a = a.Negate()
-				}
 				rootSlash, _ := c.P.ParseAtom(n + `.details.Root == "/"`)
-				okEdge := SameAtom(a, rootSlash)
-				if a.Kind == TRUE {
-					for _, t := range WdAtomTerms(a) {
-						if strings.HasPrefix(t, "HasPrefix($0,("+n+`.details.Root+"/")`) {
-							okEdge = true
+				okEdge := true
+				a := CondAtom(ifi.Cond)
+				alts := EdgeAlternatives(ifi, p.Succs[0] == in.Block())
+				if len(alts) == 0 {
+					okEdge = false
+				}
+				for _, alt := range alts {
+					okAlt := false
+					for _, f := range alt {
+						if SameAtom(f.Atom, rootSlash) {
+							okAlt = true
+						}
+						if f.Atom.Kind == TRUE {
+							for _, t := range WdAtomTerms(f.Atom) {
+								if strings.HasPrefix(t, "HasPrefix($0,("+n+`.details.Root+"/")`) {
+									okAlt = true
+								}
+							}
 						}
 					}
+					okEdge = okEdge && okAlt
 				}
 				if !okEdge {
 					c.Fail(rule, construct, InstrPos(in), "descendant return entered on edge `"+a.String()+"`, which is neither Root == \"/\" nor the HasPrefix test")
